@@ -53,7 +53,7 @@ def positions(prog, nflushes=0):
         if n % 2 == 0:
             out.append(("leaf", n, "err", "falsy"))
         else:
-            out.append(("leaf", n, "err", "frozen" if n % 4 == 1 else "tasky"))
+            out.append(("leaf", n, "err", ("frozen", "tasky", "typed")[(n // 2) % 3]))
         out.append(("leaf", n, "lazy"))
         out.append(("leaf", n, "junk"))
     for n, (block, i, nid, top) in enumerate(slots):
@@ -63,7 +63,7 @@ def positions(prog, nflushes=0):
         if n % 3 == 1:
             out.append(("raise", n, "falsy"))
         if n % 3 == 2:
-            out.append(("raise", n, "frozen" if n % 2 else "tasky"))
+            out.append(("raise", n, ("frozen", "tasky", "typed")[(n // 3) % 3]))
     for f in range(nflushes):
         out.append(("flush", f, 0, "exc"))
         out.append(("flush", f, 1, "exc"))
